@@ -382,7 +382,9 @@ impl Ord for Iri {
 
 impl Hash for Iri {
 	fn hash<H: hash::Hasher>(&self, state: &mut H) {
-		self.parts().hash(state)
+		// Must agree with the hash of the same text seen as a reference
+		// (`Borrow<...Ref>` is implemented), where the scheme is optional.
+		self.as_iri_ref().hash(state)
 	}
 }
 
